@@ -108,7 +108,13 @@ def main():
                 else:
                     caught = []
                     for p in PROPS:
-                        r = sh(f"{verif} check {p} --cases {CASES} --seed {SEED} --evidence /tmp/mut-ev-{os.getpid()}.json", env=env)
+                        try:
+                            r = sh(f"{verif} check {p} --cases {CASES} --seed {SEED} --evidence /tmp/mut-ev-{os.getpid()}.json", env=env, timeout=400)
+                        except subprocess.TimeoutExpired:
+                            caught.append(f"{p}:TIMEOUT")
+                            continue
+                        if r.returncode == 2 and "hangs on the saved case" in r.stderr:
+                            m.setdefault("inconclusive_hang", []).append(p)
                         if "VIOLATION property=" in r.stdout:
                             rule = re.search(r"  rule (\S+)", r.stdout)
                             caught.append(f"{p}:{rule.group(1) if rule else '?'}")
